@@ -50,8 +50,8 @@ pub fn c05() -> DiffProp {
     DiffProp {
         id: "C05",
         families: vec![
-            Fam::profile("expr", profiles::c05(), 24_000, 500_000, 600),
-            Fam::profile("expr_illtyped", { let mut p = profiles::c05(); p.illtyped = 6; p }, 6_000, 100_000, 600),
+            Fam::profile("expr", profiles::c05(), 120_000, 1_000_000, 600),
+            Fam::profile("expr_illtyped", { let mut p = profiles::c05(); p.illtyped = 6; p }, 30_000, 200_000, 600),
         ],
         rule: "cases: byte strings decoded by the grammar-based program generator (profile c05: every unary/binary/logical operator, ranges, indexing/slicing, interpolation, assignment and compound assignment, if/else-if/else, while, for, break, continue, blocks, return; operands of every value kind; minimal or redundant parentheses). Oracle: reference interpreter over the AST vs yarel on the rendered text: printed values, final outcome, error class and trace. Non-trivial: the run executed a break/continue/return/short-circuit or raised a built-in error; distinct by hash of the program text.",
         nontrivial: nt_c05,
@@ -63,7 +63,7 @@ pub fn c05() -> DiffProp {
 pub fn c06() -> DiffProp {
     DiffProp {
         id: "C06",
-        families: vec![Fam::profile("scopes", profiles::c06(), 24_000, 500_000, 700)],
+        families: vec![Fam::profile("scopes", profiles::c06(), 100_000, 800_000, 700)],
         rule: "cases: generated programs (profile c06: nested blocks, functions, lambdas and loops to depth 5, shadowing, closures stored in variables and called later, closures assigning captured variables, parameters and loop-body variables captured, global redefinition). Oracle: reference interpreter (variables are heap cells in persistent scope lists) vs yarel. Non-trivial: a variable was written from a call frame other than the one that declared it and a captured variable was read; distinct by program text.",
         nontrivial: nt_c06,
         floors: vec![("gen:shadow", 2000), ("gen:lambda", 3000), ("ev:captured_write", 300), ("ev:captured_read", 3000)],
@@ -74,7 +74,7 @@ pub fn c06() -> DiffProp {
 pub fn c07() -> DiffProp {
     DiffProp {
         id: "C07",
-        families: vec![Fam::profile("classes", profiles::c07(), 20_000, 400_000, 900)],
+        families: vec![Fam::profile("classes", profiles::c07(), 100_000, 800_000, 900)],
         rule: "cases: generated programs (profile c07: class hierarchies with overriding, fields shadowing methods, static methods and Self, default and explicit constructors with and without super.new, super.m() and bound super.m, self-dispatch, bound methods stored and called later, wrong arity, unknown members, type() and derives()). Oracle: reference interpreter vs yarel. Non-trivial: a super call, a method found in an ancestor, or a bound method call was executed; distinct by program text.",
         nontrivial: nt_c07,
         floors: vec![("gen:class_derived", 1500), ("ev:super_call", 300), ("ev:inherited_lookup", 1000), ("ev:bound_call", 1000), ("gen:static_method", 1000)],
@@ -86,8 +86,8 @@ pub fn c08() -> DiffProp {
     DiffProp {
         id: "C08",
         families: vec![
-            Fam::profile("exceptions", profiles::c08(), 20_000, 400_000, 800),
-            Fam::profile("exceptions_triggers", profiles::with_triggers(profiles::c08()), 4_000, 60_000, 800),
+            Fam::profile("exceptions", profiles::c08(), 100_000, 800_000, 800),
+            Fam::profile("exceptions_triggers", profiles::with_triggers(profiles::c08()), 15_000, 100_000, 800),
         ],
         rule: "cases: generated programs (profile c08: try/catch, try/finally, try/catch/finally nested and interleaved with loops, functions and closures; explicit throws of any value, built-in failures, throws from callees; rethrow). Family 'exceptions' keeps recorded-defect shapes off, 'exceptions_triggers' turns them on and counts failures that match a recorded finding. Oracle: reference interpreter (finally always runs once, then the saved outcome continues) vs yarel. Non-trivial: an exception was caught with >=2 try statements active, or from a callee, or a finally ran with a pending outcome; distinct by program text.",
         nontrivial: nt_c08,
@@ -99,7 +99,7 @@ pub fn c08() -> DiffProp {
 pub fn c09() -> DiffProp {
     DiffProp {
         id: "C09",
-        families: vec![Fam::profile("fibers", profiles::c09(), 16_000, 300_000, 800)],
+        families: vec![Fam::profile("fibers", profiles::c09(), 80_000, 600_000, 800)],
         rule: "cases: generated programs (profile c09: fibers whose bodies yield from loops, nested function frames and try blocks, return values, take parameters; drivers that call with and without values, too few/many times, with wrong argument counts, query has_finished). Oracle: reference interpreter with stackful coroutines vs yarel. Non-trivial: >=2 yields and >=3 switches, or a rejected misuse next to successful transfers; distinct by program text.",
         nontrivial: nt_c09,
         floors: vec![("ev:fiber_yielded", 5000), ("ev:fiber_returned", 1000), ("ev:fiber_call_finished", 300), ("gen:yield_nested_frame", 500), ("gen:try_spans_yield", 500)],
@@ -110,7 +110,7 @@ pub fn c09() -> DiffProp {
 pub fn c18() -> DiffProp {
     DiffProp {
         id: "C18",
-        families: vec![Fam::profile("iteration", profiles::c18(), 20_000, 400_000, 700)],
+        families: vec![Fam::profile("iteration", profiles::c18(), 100_000, 800_000, 700)],
         rule: "cases: generated programs (profile c18: for loops over vectors, tuples, ascending/descending/empty ranges, strings with multi-byte characters, non-iterables; chains of map/filter ending in collect/reduce/for; break/continue/return inside loops; push during iteration). Oracle: reference interpreter, whose map/filter/reduce/collect are a frozen copy of the core library evaluated by the same tree walker, vs yarel. Non-trivial: an adapter chain over a non-vector iterable, or a break/continue executed inside a for loop; distinct by program text.",
         nontrivial: nt_c18,
         floors: vec![("gen:iter_chain", 5000), ("ev:for:range", 2000), ("ev:for:str", 300), ("ev:for:tuple", 300), ("ev:for:iter", 500)],
@@ -125,7 +125,7 @@ fn nt_c12(l: &[&'static str], _e: &Ev, _d: &DiffResult) -> bool {
 pub fn c12() -> DiffProp {
     DiffProp {
         id: "C12",
-        families: vec![Fam::custom("map_history", Box::new(crate::gen_map::program), 30_000, 500_000, 200)],
+        families: vec![Fam::custom("map_history", Box::new(crate::gen_map::program), 100_000, 1_000_000, 200)],
         rule: "cases: histories (up to 60 operations on two maps) of literal construction, insert, remove, get, has_key, clear, len, keys/values/items and map == over a per-history key pool drawn from 44 key expressions: equal keys built differently (1, 2-1, 0.5+0.5; 0, -0, 0*-1; \"ab\", \"a\"+\"b\", a slice; equal tuples and nested tuples built separately; tuples with 0 vs -0), hash-colliding tuples, NaN, booleans, nil, classes, ranges, and unhashable values; a sixth of the histories use up to 48 distinct numeric keys to force growth. Oracle: association-list map with the language's == (reference interpreter); enumerations compared as multisets; unhashable keys must give ValueError and leave the map unchanged (final full scan). Non-trivial: a lookup after a removal with >=4 inserts; distinct by program text.",
         nontrivial: nt_c12,
         floors: vec![("gen:insert", 50_000), ("gen:get_after_remove", 20_000), ("gen:enumerate", 5_000), ("gen:map_eq", 3_000), ("ev:err:ValueError", 5_000)],
@@ -200,7 +200,7 @@ fn nt_c14(_l: &[&'static str], e: &Ev, _d: &DiffResult) -> bool {
 pub fn c14() -> DiffProp {
     DiffProp {
         id: "C14",
-        families: vec![Fam::custom("import_graphs", Box::new(crate::gen_mod::program), 12_000, 250_000, 260)],
+        families: vec![Fam::custom("import_graphs", Box::new(crate::gen_mod::program), 60_000, 500_000, 260)],
         rule: "cases: import graphs over 1-6 generated modules (some missing, some that do not compile) with forward, backward and self edges (DAGs, diamonds, self-loops, longer cycles); imports at top level, inside functions called once or twice, inside try blocks and under aliases; every module prints load tags, defines the globals `tag` and `counter` (as main does) and functions that read and write them, reads built-ins (type, Error, StopIter, iterators) and tries to read a global that only main defines; main reads and sets module attributes, calls module functions, prints its own globals after every import and compares module objects. Served by an in-memory loader. Oracle: reference interpreter (module registry: absent / loading / loaded, one module object per path, globals per module) vs yarel; import failures compared by class. Non-trivial: a module was imported again after it had been loaded and >=3 imports ran; distinct by program text.",
         nontrivial: nt_c14,
         floors: vec![("ev:import_again", 3_000), ("ev:import_cycle", 1_000), ("gen:import_in_function", 3_000), ("gen:bad_module", 1_000), ("gen:module_identity", 300), ("gen:set_attribute", 1_000)],
